@@ -104,7 +104,9 @@ func c05Obs(h *rtp.Header) Ev {
 }
 
 func c05Wire(h *rtp.Header) Ev {
-	none := func(res, kind string) Ev { return Ev{"res": res, "errkind": kind, "ids": []int{}, "vals": [][]int{}, "probes": []Ev{}} }
+	none := func(res, kind string) Ev {
+		return Ev{"res": res, "errkind": kind, "ids": []int{}, "vals": [][]int{}, "probes": []Ev{}}
+	}
 	p := &rtp.Packet{Header: h.Clone(), Payload: []byte{7, 8, 9}}
 	var buf []byte
 	var err error
